@@ -1,8 +1,12 @@
 #!/bin/bash
-# usage: run_all.sh <pid> ...   -- run every /tmp/wt/<pid>/MUTANT* against the check of <pid>
+# usage: run_all.sh [-b <worktree base dir>] [-o <results jsonl>] <pid> ...
+#   runs every <base>/<pid>/MUTANT* against the quick check of <pid>
+base=/tmp/wt; out=/verif/out/mutants.jsonl
+while getopts "b:o:" o; do case $o in b) base=$OPTARG;; o) out=$OPTARG;; esac; done
+shift $((OPTIND-1))
 for pid in "$@"; do
-  for m in /tmp/wt/$pid/MUTANT*; do
+  for m in $base/$pid/MUTANT*; do
     [ -f $m/patch.diff ] || continue
-    python3 /verif/selftest/run_mutant.py /tmp/wt/$pid $m $pid >> /verif/out/mutants.jsonl 2>/verif/out/mutants.err
+    python3 /verif/selftest/run_mutant.py $base/$pid $m $pid >> $out 2>>/verif/out/mutants.err
   done
 done
